@@ -32,6 +32,10 @@ func exitClass(e string) string {
 func typedAny(cl string) bool {
 	return cl == "request-error" || cl == "malformed" || cl == "executable-file"
 }
+
+// slowReturn: the call returned more than 2 s after the end of its context (only used to NOT judge, never to alarm)
+func slowReturn(res result) bool { return res.AfterEndMS > 2000 }
+
 func typedExec(cl string) bool { return cl == "malformed" || cl == "executable-file" }
 
 // rssBoundKB: 8 x cap per oversized stream above the baseline. Deliberately very coarse: the statement bounds what the
@@ -83,7 +87,7 @@ func judge(c Case, res result) (v verdict) {
 				word = "deadline"
 			}
 			add("time/not-returned-after-"+word+":"+c.Timing, fmt.Sprintf("the call had not returned %v after its context ended (%s); the harness gave up and killed the plugin's processes", giveUpAfterCtxEnd, tuple))
-			v.Class = prefix + " -> NOT RETURNED within 20s of the context's end"
+			v.Class = prefix + " -> NOT RETURNED within the bound (20 s x load factor) after the context's end"
 		case descNoEnd:
 			v.Class = prefix + " -> not returned within 25s (context never ends: not judged)"
 		default:
@@ -172,6 +176,12 @@ func judge(c Case, res result) (v verdict) {
 			}
 		}
 		switch {
+		case isErrThenSleep(c.Timing) && limited && res.Printed && slowReturn(res):
+			// nothing held the pipes, yet the call came back only seconds after its context had ended: on a starved
+			// machine the host's bounded pipe wait may have run out before its readers had drained the pipe - the
+			// bounded-delay clause allows that; what was printed may be lost
+			v.Judged = true
+			rc = "error (slow return on a starved machine: stderr not judged)"
 		case isErrThenSleep(c.Timing) && limited && res.Printed:
 			// the plugin had written its stderr completely before the context killed it: a failing process that
 			// printed a structured error yields that error, whatever ended the process
